@@ -855,6 +855,16 @@ func c25Recv(f []string) string {
 		}
 	}
 	out := fmt.Sprintf("ok pl=%s mk=%s enc=%s", pl, Hex([]byte(got.MsgKey)), Hex(got.Payload))
+	if tr == nil && sealed {
+		// keys-only path: SealRecvPacket builds its own cipher.  The AES oracle for the model is taken from a side run of
+		// the traced path on a copy of the packet (same key => same block function); the keys-path OUTPUT above is what is compared.
+		if sc, t, err := penc.VerifTracedCrypto(keys); err == nil {
+			cp := *pkt
+			if _, err := penc.SealRecvPacketWithCrypto(&cp, sc); err == nil {
+				tr = t
+			}
+		}
+	}
 	if tr != nil && sealed {
 		out += fmt.Sprintf(" ein=%s eout=%s", Hex(tr.EncIn), Hex(tr.EncOut))
 	}
